@@ -68,7 +68,9 @@ class World:
         self.opt = ns.optim.SGD([p for p, l in zip(self.params, LEAVES) if l["req"]], lr=0.1)
         # optimizers with a zero learning rate: a step is neither a backward call nor a reset, so .grad must survive it
         self.opt0 = [ns.optim.SGD([p for p, l in zip(self.params, LEAVES) if l["req"]], lr=0.0, momentum=0.9, nesterov=True),
-                     ns.optim.Adam([p for p, l in zip(self.params, LEAVES) if l["req"]], lr=0.0)]
+                     ns.optim.Adam([p for p, l in zip(self.params, LEAVES) if l["req"]], lr=0.0),
+                     ns.optim.Adam([p for p, l in zip(self.params, LEAVES) if l["req"]], lr=0.0, maximize=True),
+                     ns.optim.SGD([p for p, l in zip(self.params, LEAVES) if l["req"]], lr=0.0, maximize=True, weight_decay=0.1)]
         self.params[1].requires_grad = True             # ... and unfrozen before the first graph is built
         self.tvals = {i: p for i, p in enumerate(self.params)}      # value id -> library Tensor
         self.ledger = [None] * len(LEAVES)
@@ -314,7 +316,7 @@ def run_history(ns, mon, case):
                     reset(["zero_module", "zero_optimizer"][int(rng.integers(2))])
                     kinds.append("poison-reset")
             elif r < 0.86:
-                o = w.opt0[int(rng.integers(2))]
+                o = w.opt0[int(rng.integers(len(w.opt0)))]
                 o.step()
                 w.events.append(["optimizer_step_lr0", type(o).__name__])
                 kinds.append("step0")
